@@ -31,6 +31,8 @@ def oracle(line, out):
         return G.oracle_rpd(line, out)
     if line.startswith("sst"):
         return G.oracle_sst(line, out)
+    if line.startswith("rpx"):
+        return G.oracle_rpx(line, out)
     return []
 
 
@@ -42,11 +44,11 @@ def run_c(drv, lines):
 def shrink(drv, line, fails):
     """delta-debug the op list of a case with 'the oracle fails on the implementation' as predicate"""
     t = line.split()
-    nfix = {"rpd": 5, "rpu": 3, "sst": 3}[t[0]]
+    nfix = {"rpd": 5, "rpu": 3, "sst": 3, "rpx": 4}[t[0]]
     prefix, ops = t[:nfix], t[nfix:]
 
     def still(pfx, cand):
-        if not cand:
+        if not cand or (pfx[0] == "rpx" and not G.rpx_ok(cand)):
             return False
         ln = " ".join(pfx + cand)
         o, _ = run_c(drv, [ln])
@@ -121,7 +123,7 @@ def main(run):
         # --replay <file>: only the case lines of a replay file ("case: ..." / "... case: ...")
         import re
         txt = open(run.replay).read()
-        rl = [m.group(1).strip() for m in re.finditer(r"(?m)case:\s*((?:rpu|rpd|sst|rpe)\b.*)$", txt)]
+        rl = [m.group(1).strip() for m in re.finditer(r"(?m)case:\s*((?:rpu|rpd|sst|rpe|rpx)\b.*)$", txt)]
         lines = ["rpc"] + [l for l in rl if not l.startswith("rpe")]
         kinds = ["replay"] * len(lines)
         replay_only = True
@@ -146,6 +148,9 @@ def main(run):
             n = (4 if w == "32" else 3) if quick else (5 if w in ("2", "32") else 4)
             add(G.rpd_exhaustive(w, b12, G.REQ_ALPHABET, n), "request-exhaustive")
     add(G.sst_exhaustive(5 if quick else 7), "sender-exhaustive")
+    for b12 in (0, 1):
+        add(G.rpx_exhaustive("32", b12, G.RPX_ALPHABET, 4 if quick else 5), "dualrole-exhaustive")
+    add((G.rpx_random(r) for _ in range(4000 if quick else 100000)), "dualrole-random")
     # seeded random aimed at the boundaries
     add((G.rpu_random(r) for _ in range(6000 if quick else 150000)), "unit-random")
     add((G.rpd_random(r) for _ in range(6000 if quick else 150000)), "request-random")
@@ -167,12 +172,16 @@ def main(run):
         mo, co = om[i], oc[i]
         run.count(ln, nontrivial(ln, co))
         run.hist("kind", kinds[i])
-        if ln.startswith("rpd"):
+        if ln.startswith("rpd") or ln.startswith("rpx"):
             for o in co.split():
                 run.hist("request_verdict", o.split(",")[0])
             run.hist("history_length", min(len(co.split()), 20))
         if i % 9973 == 11 or kinds[i] == "corpus" and i < 4:
             run.sample({"case": ln[:300], "impl": co[:300]})
+        if "NOGEN" in co:
+            # the driver could not produce a message of the case (generator bug): not compared
+            run.cov["not_generated"] = run.cov.get("not_generated", 0) + 1
+            continue
         fails = oracle(ln, co)
         if co.startswith("CRASH"):
             fails = ["the driver crashed (%s)" % co]
@@ -258,7 +267,7 @@ def main(run):
 
     # the same recipient cases on a build in which src/oscore/oscore.c is compiled with
     # -fsanitize=shift (no recovery): a shift by >= 64 bits aborts the driver on that case
-    sub = [ln for ln in lines if ln.startswith("rpu") or ln.startswith("rpd")]
+    sub = [ln for ln in lines if ln.startswith("rpu") or ln.startswith("rpd")]   # (rpx: same code paths)
     ou, cru = run_c(drv_ub, sub)
     run.cov["shift_sanitizer_cases"] = len(sub)
     for j, (idx, rc, err) in enumerate(cru[:2]):
